@@ -990,6 +990,20 @@ def run(rep):
             continue
         a, b = interp_extras(fs[0]), interp_extras(fs[1])
         ok = a == b and bool(a)
+        # ... and the curve is the SPACE's choice: a cache flag handed to interpolate() ("the path still has to be computed") starts true, so
+        # that the space's own interpolate -- which may pick the reversed curve of a symmetric Dubins space -- computes the path.  A validator
+        # that computes the path itself and starts the flag false walks a curve interpolate(s1, s2, t) does not trace
+        for fx in fs:
+            for (callee, csig, extras) in interp_extras(fx):
+                if 'bool &' in (csig or ''):
+                    flags = [e for e in extras if e in ('True', 'False', 'true', 'false') or e.startswith(('True', 'False'))]
+                    okf = bool(flags) and all(e.startswith(('True', 'true')) for e in flags)
+                    rep.add('R05d', fx.name + ('<' + targs + '>' if targs else ''), 'space-chooses-the-curve:' + ('3-arg' if len(fx.params) == 3 else '2-arg'),
+                            okf, fx.loc,
+                            'the path cache starts empty (first-time flag true): interpolate() computes the path' if okf else
+                            'the first-time flag handed to %s starts %s: the validator walks a path it computed itself instead of the one the '
+                            'space\'s interpolate(s1, s2, t) traces (which, for a symmetric space, may be the reversed curve)' %
+                            (callee.split('::')[-2] + '::interpolate', flags or extras))
         rep.add('R05d', rec + ('<' + targs + '>' if targs else ''), 'overloads-interpolate-alike', ok, fs[0].loc,
                 'both overloads interpolate through the same routine with identically initialised cache arguments %s' % (a,)
                 if ok else 'the two overloads interpolate differently (they can disagree on the verdict): %s vs %s' % (a, b))
